@@ -253,6 +253,9 @@ func (i *interpreter) strEq(x, y value) value {
 		return false
 	}
 	xs, ys := strVals(x), strVals(y)
+	if e := i.hexStrEq(xs, ys); e != nil {
+		return i.normBool(e)
+	}
 	if len(xs) >= 4 {
 		// one wide equality (adjacent extracts of one term are merged back)
 		return i.normBool(i.ts.Eq(i.bytesTerm(xs), i.bytesTerm(ys)))
